@@ -39,6 +39,7 @@ type Snapshot struct {
 	id          uint64
 	ts          uint64
 	root        node
+	minOff      int64 // lowest node-log offset reachable when the snapshot was taken (never moves)
 	readers     map[int]io.Closer
 	maxReaderID int
 	closed      bool
